@@ -50,6 +50,9 @@ def recipes(t, size_cap=4, rnd=None):
         # property's (the mean of such a generation is NaN)
         for costs, nanfit in (([1.0], [0]), ([0.0, 1.0], [0]), ([0.0, 1.0], [1]), ([1.0, 1.0], [0, 1]), ([2.5, 0.0, 1.0], [1])):
             yield {"costs": costs, "nanfit": nanfit}
+        # costs that are distinct doubles but collapse in single precision (or differ only past the 7th digit)
+        for costs in ([2e300, 1e300], [1e300, 2e300, 1.5e300], [5e-300, 1e-300, 0.0], [1.0000002, 1.0000001], [-1.00000003, -1.00000001, -1.00000002]):
+            yield {"costs": costs}
         for n in range(1, size_cap + 1):
             alphabet = COSTS if n <= 3 else COSTS[:3]
             for costs in itertools.product(alphabet, repeat=n):
